@@ -176,3 +176,102 @@ h_strfd(void)
 	CHECK(n <= BSZ, "never reports more output than the buffer holds");
 	WITNESS();
 }
+
+/* (PT) the time parser driver on enumerated formats and arbitrary input */
+void
+h_strpt(void)
+{
+	ND_ARR(u8, vi, ILEN ? ILEN : 1);
+	static const char cf[] = CFMT;
+	char *fmt, *inp;
+	char *ep = NULL;
+	struct dt_t_s t;
+
+	for (unsigned int i = 0; i < ILEN; i++) {
+		ASSUME(vi[i] != 0);
+	}
+	fmt = mk_str((const u8*)cf, FLEN);
+	inp = mk_str(vi, ILEN);
+	t = dt_strpt(inp, fmt, &ep);
+	CHECK(ep >= inp && ep <= inp + ILEN, "end pointer inside the input");
+	(void)t;
+	WITNESS();
+}
+
+/* (FT) the time formatter driver: enumerated format, any time, small buffers */
+void
+h_strft(void)
+{
+	ND(u8, vh);
+	ND(u8, vm);
+	ND(u8, vs);
+	ND(u32, vns);
+	static const char cf[] = CFMT;
+	char *fmt, *buf;
+	struct dt_t_s t;
+	size_t n;
+
+	/* as the parser produces them: 24:00:00 and the leap second included */
+	ASSUME(vh <= 24 && vm < 60 && vs <= 60 && vns < 1000000000U);
+	fmt = mk_str((const u8*)cf, FLEN);
+	buf = malloc(BSZ);
+#if !VF_REPLAY
+	__CPROVER_assume(buf != NULL);
+#endif
+	memset(&t, 0, sizeof(t));
+	t.typ = DT_HMS;
+	t.hms.h = vh, t.hms.m = vm, t.hms.s = vs, t.hms.ns = vns;
+	n = dt_strft(buf, BSZ, fmt, t);
+	CHECK(n <= BSZ, "never reports more output than the buffer holds");
+	WITNESS();
+}
+
+/* (PDT) the date-time parser driver */
+void
+h_strpdt(void)
+{
+	ND_ARR(u8, vi, ILEN ? ILEN : 1);
+	static const char cf[] = CFMT;
+	char *fmt, *inp;
+	char *ep = NULL;
+	struct dt_dt_s d;
+
+	for (unsigned int i = 0; i < ILEN; i++) {
+		ASSUME(vi[i] != 0);
+	}
+	fmt = mk_str((const u8*)cf, FLEN);
+	inp = mk_str(vi, ILEN);
+	d = dt_strpdt(inp, fmt, &ep);
+	CHECK(ep >= inp && ep <= inp + ILEN, "end pointer inside the input");
+	(void)d;
+	WITNESS();
+}
+
+/* (FDT) the date-time formatter driver */
+void
+h_strfdt(void)
+{
+	ND(u32, vu);
+	ND(u8, vh);
+	ND(u8, vm);
+	ND(u8, vs);
+	static const char cf[] = CFMT;
+	char *fmt, *buf;
+	struct dt_dt_s d;
+	size_t n;
+
+	ASSUME(vh < 24 && vm < 60 && vs < 60);
+	fmt = mk_str((const u8*)cf, FLEN);
+	buf = malloc(BSZ);
+#if !VF_REPLAY
+	__CPROVER_assume(buf != NULL);
+#endif
+	memset(&d, 0, sizeof(d));
+	d.d.u = vu;
+	ASSUME(d.d.ymd.y >= 1601 && d.d.ymd.y <= 4095 && d.d.ymd.m >= 1 && d.d.ymd.m <= 12 && d.d.ymd.d >= 1 && d.d.ymd.d <= 31);
+	d.t.hms.h = vh, d.t.hms.m = vm, d.t.hms.s = vs;
+	dt_make_sandwich(&d, DT_YMD, DT_HMS);
+	n = dt_strfdt(buf, BSZ, fmt, d);
+	CHECK(n <= BSZ, "never reports more output than the buffer holds");
+	WITNESS();
+}
